@@ -213,10 +213,17 @@ class SchedLock:
         if s is None or me is None or s.aborting:
             self.holder = me
             return True
+        waits = 0
         while self.holder is not None and self.holder != me:
             if not blocking:
                 return False
             h = self.holder
+            waits += 1
+            if me == 'G' and waits > s.step_limit // 4:
+                # every hand-over let the holder make a step and it still holds the lock: the grader would wait for ever
+                s.horizon_hit = True
+                s.log.append(('step horizon reached', 'waiting for a lock held by ' + str(h)))
+                raise StepHorizon('the grader thread still waits for a lock held by %s after %d hand-overs' % (h, waits))
             s.log.append(('blocks on lock', me, 'held by', h))
             if not s.runnable(h):
                 raise Deadlock('%s waits for a lock held by %s which cannot run' % (me, h))
